@@ -195,6 +195,7 @@ def judge(text, yc, toks, objs, complete):
     fails = []
     pos = 0
     bare_before = []       # U+2028/9 seen so far outside tokens and comments
+    prev_sig = None        # text of the last real token that is not a comment (IdentifierName after `.`: property name)
     for tv, obj in zip(toks, objs):
         ty, val, lexpos, lineno, colno = tv[:5]
         if isinstance(obj, AutoLexToken):
@@ -221,13 +222,16 @@ def judge(text, yc, toks, objs, complete):
                 fails.append(('munch', 'punctuator %r at %d although %r is a prefix of the rest' % (val, lexpos, longest), None))
         if ty in kw_types or ty == 'ID':
             is_res = val in ES5_RESERVED
-            if ty == 'ID' and is_res:
+            if ty == 'ID' and is_res and prev_sig != '.':
+                # (after `.` an IdentifierName is a property name: ES5 11.2.1; the lexer types it ID)
                 fails.append(('keyword', 'reserved word %r typed ID' % val, None))
             if ty in kw_types and val != ty.lower():
                 fails.append(('keyword', 'lexeme %r typed %s' % (val, ty), None))
             if ty in kw_types and not is_res:
                 fails.append(('keyword', 'non-reserved %r typed %s' % (val, ty), None))
         pos = lexpos + len(val)
+        if not (val.startswith('//') or val.startswith('/*')) or ty in ('STRING', 'REGEX'):
+            prev_sig = val
     if complete and not fails:
         ok, why, _ = gap_scan(text, pos, len(text), not yc)
         if not ok:
